@@ -469,6 +469,36 @@ fn fn_ptr_ty(sig: &CoreSig) -> String {
     format!("unsafe extern \"C\" fn({}){r}", ps.join(", "))
 }
 
+/// One `match` arm of `verif_call_export`: call the function pointer `fp` with core signature `es`.
+pub fn tramp_arm(k: usize, es: &CoreSig) -> String {
+    let args: Vec<String> =
+        es.params.iter().enumerate().map(|(i, t)| from_slot(*t, &format!("*args.add({i})"))).collect();
+    let call = format!("f({})", args.join(", "));
+    let body = match es.results.first() {
+        None => format!("{call};"),
+        Some(t) => format!("let r = {call}; *ret = {};", to_slot(*t, "r")),
+    };
+    format!("        {k} => {{ let f: {} = core::mem::transmute(fp); {body} }}\n", fn_ptr_ty(es))
+}
+
+/// Definition of the host symbol of core import `(module, name)` with core signature `is`: packs
+/// the arguments into `u64` slots and calls the host's dispatch callback with index `k`.
+pub fn shim_def(k: usize, module: &str, name: &str, is: &CoreSig) -> String {
+    let params: Vec<String> = is.params.iter().enumerate().map(|(i, t)| format!("a{i}: {}", rust_core(*t))).collect();
+    let slots: Vec<String> = is.params.iter().enumerate().map(|(i, t)| to_slot(*t, &format!("a{i}"))).collect();
+    let (ret_ty, ret_expr) = match is.results.first() {
+        None => (String::new(), "let _ = r;".to_string()),
+        Some(t) => (format!(" -> {}", rust_core(*t)), from_slot(*t, "r")),
+    };
+    format!(
+        "#[unsafe(export_name = \"{}\")]\nunsafe extern \"C\" fn imp_shim_{k}({}){ret_ty} {{\n    let args: [u64; {}] = [{}];\n    let r = rt::dispatch({k}, &args);\n    {ret_expr}\n}}\n",
+        mangle(module, name),
+        params.join(", "),
+        is.params.len(),
+        slots.join(", ")
+    )
+}
+
 pub struct Harness {
     pub user_rs: String,
     /// functions the harness could not bind (Rust-level form not understood): `(k, reason)`
@@ -566,20 +596,7 @@ pub fn generate(ix: &Index, cfg: Config, funcs: &[Func]) -> Harness {
             }
         }
         // ---- export trampoline (reference signature)
-        let es = export_sig(&f.ty);
-        let args: Vec<String> =
-            es.params.iter().enumerate().map(|(i, t)| from_slot(*t, &format!("*args.add({i})"))).collect();
-        let call = format!("f({})", args.join(", "));
-        let body = match es.results.first() {
-            None => format!("{call};"),
-            Some(t) => format!("let r = {call}; *ret = {};", to_slot(*t, "r")),
-        };
-        writeln!(
-            tramp_arms,
-            "        {k} => {{ let f: {} = core::mem::transmute(fp); {body} }}",
-            fn_ptr_ty(&es)
-        )
-        .unwrap();
+        tramp_arms.push_str(&tramp_arm(k, &export_sig(&f.ty)));
 
         // ---- import driver
         match find_fn(ix, imp_mod, &imp_rust) {
@@ -616,23 +633,7 @@ pub fn generate(ix: &Index, cfg: Config, funcs: &[Func]) -> Harness {
             }
         }
         // ---- import symbol definition (reference signature)
-        let is = import_sig(&f.ty);
-        let params: Vec<String> =
-            is.params.iter().enumerate().map(|(i, t)| format!("a{i}: {}", rust_core(*t))).collect();
-        let slots: Vec<String> = is.params.iter().enumerate().map(|(i, t)| to_slot(*t, &format!("a{i}"))).collect();
-        let (ret_ty, ret_expr) = match is.results.first() {
-            None => (String::new(), "let _ = r;".to_string()),
-            Some(t) => (format!(" -> {}", rust_core(*t)), from_slot(*t, "r")),
-        };
-        writeln!(
-            shims,
-            "#[unsafe(export_name = \"{}\")]\nunsafe extern \"C\" fn imp_shim_{k}({}){ret_ty} {{\n    let args: [u64; {}] = [{}];\n    let r = rt::dispatch({k}, &args);\n    {ret_expr}\n}}",
-            mangle(&f.imp_module, &f.imp_name),
-            params.join(", "),
-            is.params.len(),
-            slots.join(", ")
-        )
-        .unwrap();
+        shims.push_str(&shim_def(k, &f.imp_module, &f.imp_name, &import_sig(&f.ty)));
     }
 
     let mut s = String::new();
